@@ -46,6 +46,7 @@ inductive Operand (α : Type)
   | scalar (x : α)
   | perPoint (v : Array α)      -- ndarray of shape (length,1,1), e.g. `domain.long_r`
   | perMatrix (m : Array α)     -- ndarray of shape (rank,rank)
+  | perCol (v : Array α)        -- 1-d ndarray of shape (rank,): numpy broadcasts it along the LAST axis
   | full (d : Array α)          -- ndarray of shape (length,rank,rank)
   | ma (B : MA α)               -- another MatrixArray (same length, or length 1: `density.pair`)
 
@@ -54,6 +55,7 @@ def Operand.at (o : Operand α) (rank l i j : Nat) : α :=
   | .scalar x => x
   | .perPoint v => v[l]!
   | .perMatrix m => m[i * rank + j]!
+  | .perCol v => v[j]!
   | .full d => d[(l * rank + i) * rank + j]!
   | .ma B => B.at (if B.length = 1 then 0 else l) i j
 
